@@ -43,3 +43,12 @@ pub proof fn lemma_subs_match_intro(ring: RingR, plan: Seq<ReadPlan>, exp: Seq<u
             && ring.subs@[k].offset == plan[k].blk.offset + plan[k].start && ring.subs@[k].size == plan[k].end - plan[k].start && exp[k] == ring.subs@[k].size,
     ensures subs_match(ring.subs@, plan, exp),
 { reveal(subs_match); }
+// the mmap arms: `vec![0u8; size]` and SharedMmap::read into a Vec (same A-IO contract as prelude mmap_read)
+#[verifier::external_body]
+pub fn vec_of_zero_bytes(n: usize) -> (r: Vec<u8>) ensures r@.len() == n { unimplemented!() }
+#[verifier::external_body]
+pub fn mmap_read_vec(m: &MmapH, offset: usize, dest: &mut Vec<u8>)
+    ensures
+        final(dest)@.len() == old(dest)@.len(),
+        offset + old(dest)@.len() <= disk(m.file).len() ==> final(dest)@ == disk(m.file).subrange(offset as int, offset + old(dest)@.len()),
+{ unimplemented!() }
